@@ -1,0 +1,31 @@
+//go:build verif
+
+// Contracts for govc (contract-based deductive verification, /verif). Comment-only file:
+// it is compiled only under the build tag "verif" and contains no code.
+
+package gslb_conf
+
+// ---- C13: a malformed (but decodable) gslb configuration is rejected with an error, never with a crash ----
+
+//@ package_invariant[sentinel_errors] ErrGslbNoHostname != nil && ErrGslbNoTs != nil
+
+//@ func (GslbClusterConf).Check
+//@   props C13
+//@   nopanic nil,index
+//@   modifies nothing
+
+//@ func (GslbClustersConf).Check
+//@   props C13
+//@   nopanic nil,index
+//@   modifies nothing
+
+//@ func GslbConfNilCheck
+//@   props C13
+//@   nopanic nil
+//@   modifies nothing
+//@   ensures[an_accepted_configuration_has_all_its_parts] result0 == nil ==> conf.Clusters != nil && conf.Hostname != nil && conf.Ts != nil
+
+//@ func GslbConfCheck
+//@   props C13
+//@   nopanic nil,index
+//@   modifies nothing
